@@ -281,7 +281,7 @@ prop("C07", [K_CAP, K_CAP0, B_OPEN_NEW] + B_OPEN_EX + B_OPEN_DAT + [B_SCAN_SMALL
               "the alternative cargo feature sets (each is a different program)"])
 prop("C13", [K_SIGD, K_SIGUV, K_SIGV] + B_HDRR + B_OPENR, trusted_base=TB_COMMON + B_TB, rule=R_B, bounds="all 2^128 signature pairs",
      outside=["the create(true) side effect of opening a MISSING file of a partially present map"])
-prop("C12", K_HASH() + [K_VU64, K_SIGV] + B_CODEC + B_HDRW + [B_API[0], B_API[1], B_BUCKET[8], B_OPEN_NEW, K_KSLOT, K_VSLOT],
+prop("C12", K_HASH() + [K_VU64, K_SIGV, K_LISTS, K_ROUNDUP] + B_CODEC + B_HDRW + [B_API[0], B_API[1], B_BUCKET[8], B_OPEN_NEW, K_KSLOT, K_VSLOT],
      trusted_base=TB_COMMON + B_TB, rule="differential: current code vs. the frozen format specification /verif/spec/format.rs, symbolic inputs", bounds="keys up to 17 bytes; all u64; all field values",
      outside=["golden directories opened through the real file system under Kani (no file system there); the frozen spec itself is validated natively against files written by the pinned build (bin/validate_spec)", "other cargo feature sets' formats"])
 
